@@ -132,6 +132,11 @@ func (p *evmprof) Gen(w *e.World, r *e.RNG) e.Step {
 	case 0:
 		st := genBlk(w, r)
 		if st.Dt > 100_000_000 {
+			if p.id == "C04" && st.Dt > 300*86_400_000 && r.Chance(0.5) {
+				// more than a year passes: every allowance made so far expires
+				w.Stats.Fault("clock_jump_past_grant_expiry")
+				return st
+			}
 			st.Dt = r.Range(1000, 100000)
 		}
 		return st
